@@ -28,12 +28,19 @@ def run(ctx) -> None:
     ctx.rule("OPS", "comparison maps equal the operator oracle (five targets)", floor=35)
     ctx.rule("CONN", "connective templates: own connective only; implication = !antecedent || consequent (five targets)", floor=30)
     ctx.rule("EXH3", "every Transpiler implements every node kind", floor=5)
+    ctx.rule("PAREN", "an operand is emitted without parentheses only on paths where its own node kind was tested (five targets)", floor=10)
+    ctx.rule("REFLOW", "line-broken variants of a template carry the same holes and text as the one-line form (five targets)", floor=2)
     ctx.rule("NAMES", "JSON/XML property and class names are produced by the shared naming functions only", floor=20)
     ctx.rule("DESC", "invariant descriptions pass through wrap_text_into_lines and string_literal", floor=4)
     for t in TARGETS:
         transp.check_ops(ctx, t, "OPS")
         transp.check_connectives(ctx, t, "CONN")
         _check_transpiler_complete(ctx, t, "EXH3")
+        transp.check_parentheses(ctx, t, "PAREN")
+        for m in p.modules.values():
+            if m.name.startswith(f"aas_core_codegen.{t}"):
+                for f in m.functions.values():
+                    transp.check_reflow(ctx, f, "REFLOW")
         _check_description_flow(ctx, t, "DESC")
     _check_names(ctx)
 
